@@ -235,6 +235,8 @@ def conflicts_in(accesses_by_core: list[list[Access]], same_epoch_only=True):
                 for b in accesses_by_core[c2]:
                     if same_epoch_only and a.epoch != b.epoch:
                         continue
+                    if a.op is b.op:
+                        continue  # one op executed by every core (dealloc): not a cross-core dependency
                     if (a.write or b.write) and overlap(a, b):
                         out.append((a, b))
     return out
